@@ -5,7 +5,8 @@ generated ones (`GenConvs.lean`), so the model follows `primitives.rs` / `regist
 
 Lending lines carry the ghost verdict after ` | ` (stripped by the check before comparing):
   stale-root / stale-any / alias / leaked / orphaned.
-`c20driver tomark` runs the lending model with the proposed repair of `LifetimeGuard::drop`.
+The freeing policy of the lending model is the one read from `engine.rs` (`genFreePolicy`);
+`c20driver tomark` / `c20driver asfound` force one.
 -/
 import SteelVerif.C20.Model
 import SteelVerif.C20.GenConvs
@@ -490,7 +491,7 @@ def genScript (seed : UInt64) (len : Nat) : List String × UInt64 := Id.run do
   let mut st : LState × Sticky := ({}, [])
   let mut out : List String := ["reset"]
   let emit (st : LState × Sticky) (l : String) : LState × Sticky :=
-    (lendLineS .asFound st ((l.splitOn " ").filter (· ≠ ""))).1
+    (lendLineS genFreePolicy st ((l.splitOn " ").filter (· ≠ ""))).1
   -- first call
   let (k0, r0) := pick rng 4
   rng := r0
@@ -553,7 +554,7 @@ def mainC20 (args : List String) : IO Unit := do
       IO.println "----"
     return ()
   | _ => pure ()
-  let pol := if args.contains "tomark" then Policy.toMark else Policy.asFound
+  let pol := if args.contains "tomark" then Policy.toMark else if args.contains "asfound" then Policy.asFound else genFreePolicy
   loop pol (← IO.getStdin) ({}, [])
 
 end SteelVerif.C20
